@@ -204,7 +204,13 @@ structure Quirks where
   inTwoValued : Bool
   deriving DecidableEq, Repr
 
-def Quirks.code : Quirks := ⟨true, true, true, true⟩
+/-- every departure present: `AND` / `OR` strict in both operands (the code before the repair
+"AND and OR in predicates follow three-valued logic") -/
+def Quirks.strict : Quirks := ⟨true, true, true, true⟩
+/-- Kleene's `AND` / `OR`, the other departures as they are -/
+def Quirks.kleene : Quirks := ⟨false, true, true, true⟩
+/-- the code as it is now (SWITCH: becomes `Quirks.kleene` with that repair) -/
+def Quirks.code : Quirks := Quirks.kleene
 def Quirks.sql : Quirks := ⟨false, false, false, false⟩
 
 /-- `values_equal` (with `eps`) / exact equality of two non-null values (without) -/
@@ -586,6 +592,10 @@ without any input row there is no group and — the "no data" special case being
 `results` is always `Some` after `aggregate()` — no output at all -/
 def hashAgg0 (col : Nat) (cs : List (List Row)) : List (List (Nat × Nat)) :=
   if cs.flatten.isEmpty then [] else [[cs.foldl (countStep col) (0, 0)]]
+
+/-- `HashAggregateOperator` without group columns as it is now (SWITCH: becomes `simpleAgg` with
+the repair "a hash aggregate without group columns returns one row for an empty input") -/
+def hashAggCoded (col : Nat) (cs : List (List Row)) : List (List (Nat × Nat)) := simpleAgg col cs
 
 /-! ## E. chains -/
 
